@@ -7,6 +7,7 @@ EXPLANATION = (
     "fields touched, comparison kinds — under the src<->dst / node<->edge renaming. A filter, tombstone check or blocked-node test dropped in "
     "one direction only shows up as a feature present in one sibling and absent in the other. It does not decide that either direction is right."
     " C06.2 additionally decides that the tombstone sets of MemTable / L0Run only grow (insert / extend) or are moved whole into the frozen run: a run's tombstone is what hides older copies of the key."
+    " C06.2 also covers the blocked sets a neighbour iterator accumulates (no whole-set assignment). C06.3: MemTable.out is keyed by the edge's source and MemTable.in_ by its destination in every access, and freeze_into_run fills edges_by_src / edges_by_dst from the matching map."
 )
 
 S = "nervusdb_storage::"
